@@ -147,6 +147,50 @@ def restore_param_order(raw, perms):
                         t["args"] = [t["args"][perm[j]] for j in range(len(perm))]
 
 
+def restore_self_params(raw, ref):
+    """a method of the reference whose receiver was dropped because it never used `self` (clippy::unused_self): same path,
+    same remaining parameter types, same return type.  A dummy first parameter is re-inserted in the body and a unit
+    argument at every call site, so that positional rules keep addressing the parameters they mean.  Returns the paths."""
+    if ref is None or "signatures" not in ref:
+        return []
+    done = []
+    sigs = ref["signatures"]
+    for x in raw["fns"]:
+        if x["kind"] not in ("Fn", "AssocFn") or x["path"] not in sigs:
+            continue
+        want = sigs[x["path"]]
+        have = [l["ty"] for l in x["locals"][1:1 + x["arg_count"]]]
+        if len(want["args"]) != len(have) + 1 or want["args"][1:] != have or want["ret"] != x["ret_ty"]:
+            continue
+        first = want["args"][0].replace("mut ", "").lstrip("&").strip()
+        if not (x["parent"].endswith(first) or first.endswith(x["parent"].split("::")[-1])):
+            continue
+
+        def shift(o):
+            if isinstance(o, dict):
+                for k, v in list(o.items()):
+                    if k == "local" and isinstance(v, int) and not isinstance(v, bool) and v >= 1:
+                        o[k] = v + 1
+                    else:
+                        shift(v)
+            elif isinstance(o, list):
+                for v in o:
+                    shift(v)
+        shift(x["blocks"])
+        x["locals"].insert(1, {"ty": want["args"][0], "mut": False, "name": "self"})
+        x["arg_count"] += 1
+        done.append(x["path"])
+    if done:
+        unit = {"k": "const", "ty": "()", "value": {"k": "zst", "ty": "()"}}
+        for x in raw["fns"]:
+            for bdy in [x] + list(x.get("promoted", [])):
+                for b in bdy["blocks"]:
+                    t = b["term"]
+                    if t["k"] == "call" and t["func"].get("k") == "fn" and strip_generics(t["func"].get("resolved") or t["func"]["path"]) in done:
+                        t["args"] = [dict(unit)] + t["args"]
+    return done
+
+
 def _renumber(o, base, bmap):
     """deep copy of JSON `o` with every place-local shifted by `base`"""
     if isinstance(o, dict):
